@@ -97,7 +97,7 @@ def run(ck, repo: Repo, tier: str):
                 # cut/full path whose `training_steps > 0` test is false: only possible for ts == 0; the released value is still ts
                 pass
         # R3
-        want_flag = "True" if kind == "full" else "False"
+        want_flag = "1" if kind == "full" else "0"  # booleans are 1 / 0 in the polynomial domain
         ok = flag == want_flag
         ck.ob("R3-checkpoint-guard", AQ, f"path:{label}:flag", ok, f"update_checkpoint = {flag}", "" if ok else f"the checkpoint flag must be {want_flag} on this path", where)
         b_end = pe.store.get(BEST)
